@@ -300,8 +300,27 @@ func runC17(c *core.Ctx, res *core.Result) {
 			reg.CleanupConnection("client-7")
 			sig = "connection"
 		case 2:
-			reg.GracefulShutdown(context.Background())
-			sig = "shutdown"
+			// several abandoned transactions at once (readers share the lock), and in every second instance a
+			// shutdown context that has already expired - what a server passes on after "deadline exceeded,
+			// forcing stop": every transaction must be rolled back all the same
+			extra := 0
+			if ro {
+				for extra < r.Range(1, 5) {
+					if _, err := reg.Begin(ctx, eng, true); err != nil {
+						break
+					}
+					extra++
+				}
+			}
+			sctx := context.Background()
+			expired := r.Bool()
+			if expired {
+				var cancel context.CancelFunc
+				sctx, cancel = context.WithTimeout(context.Background(), 0)
+				cancel()
+			}
+			reg.GracefulShutdown(sctx)
+			sig = fmt.Sprintf("shutdown(%d more abandoned, context expired=%v)", extra, expired)
 		}
 		sig += fmt.Sprint(ro)
 		critical++
